@@ -12,6 +12,10 @@ import (
 	"github.com/pkg/errors"
 )
 
+// maxChunkValues bounds metrics x samples of a single chunk accepted by the
+// reader (2^27 values, one GiB of decoded data).
+const maxChunkValues = 1 << 27
+
 func readDiagnostic(ctx context.Context, f io.Reader, ch chan<- *birch.Document) error {
 	buf := bufio.NewReader(f)
 	for {
@@ -98,6 +102,13 @@ func readChunks(ctx context.Context, ch <-chan *birch.Document, o chan<- *Chunk)
 		// reports don't equal, it's probably corrupt.
 		if nmetrics != len(metrics) {
 			return errors.Errorf("metrics mismatch, file likely corrupt Expected %d, got %d", nmetrics, len(metrics))
+		}
+
+		// the sample count is read from the (possibly corrupt) stream and
+		// zero runs expand without consuming input, so bound the size of
+		// the table before allocating and filling it.
+		if nmetrics > 0 && ndeltas > maxChunkValues/nmetrics {
+			return errors.Errorf("chunk with %d metrics and %d samples exceeds the supported size, file likely corrupt", nmetrics, ndeltas)
 		}
 
 		// now go back and populate the delta numbers
